@@ -446,6 +446,10 @@ def const_walk(fn, start_bb, env, on_term, place_value=None, const_param=None, d
                         r = a - b
                     elif base == "Mul":
                         r = a * b
+                    elif base == "Div" and b != 0 and a >= 0 and b > 0:
+                        r = a // b
+                    elif base == "Rem" and b != 0 and a >= 0 and b > 0:
+                        r = a % b
                     elif base in ("Eq", "Ne", "Lt", "Le", "Gt", "Ge"):
                         r = int({"Eq": a == b, "Ne": a != b, "Lt": a < b, "Le": a <= b, "Gt": a > b, "Ge": a >= b}[base])
                     elif base == "Shl" and 0 <= b < 64:
